@@ -810,6 +810,31 @@ def oracle_objects(evs, term, case, findings=None):
     return out
 
 
+def oracle_manual_panic(evs, term, case):
+    """A program without a panic operation that ends with a panic of a task which left a hand-polled Acquire queued and then
+    blocked in another primitive: the semaphore's release/close resumed it there (F35, release side)."""
+    if not term.startswith("panic:") or any(op.startswith("pn") for b in case["bodies"] for op in b):
+        return []
+    try:
+        t = int(term.split(":")[1])
+    except ValueError:
+        return []
+    attr, stacks = attribute(evs, case, want_stacks=True)
+    queued = False
+    for idx, e in enumerate(evs):
+        if e.kind == "O" and e.tag == 43 and e.task == t and len(e.vals) > 1 and e.vals[1] == 2:
+            queued = True
+    if not queued or t not in stacks:
+        return []
+    frame = stacks[t][-1]
+    bodies = case["bodies"]
+    ops = bodies[frame[0]] if frame[0] < len(bodies) else []
+    op = ops[frame[1]] if frame[1] < len(ops) else None
+    if op and op[:2] in ("rc", "cw", "jn", "bw", "sd", "ri", "aw", "bo"):
+        return [("C18", "task %d panicked inside '%s' (no panic operation in the program): it had left a hand-polled Acquire queued, and the semaphore's release resumed it while it was blocked there" % (t, op), "F35")]
+    return []
+
+
 # ---------------- C15: vector clocks vs happens-before derived from the API-level edges ----------------
 def vle(a, b):
     """VectorClock's PartialOrd `a <= b`: length rule plus pointwise comparison over the common prefix"""
